@@ -255,6 +255,7 @@ pub fn run(tier: &str) -> i32 {
     let thorough = tier == "thorough";
     let mut report = Report::new("C08", tier);
     let grid = int_grid(thorough);
+    let quick_grid = int_grid(false);
     let fgrid = float_grid();
     let mut samples = Samples::new(8);
 
@@ -306,6 +307,27 @@ pub fn run(tier: &str) -> i32 {
                 };
                 check("parameter", &got_param, &expect);
                 check("literal", &got_lit, &expect);
+                // one operand constant, the other passed at run time (where one-sided folds would sit)
+                if quick_grid.contains(&a) && quick_grid.contains(&b) {
+                    for (form, text, arg) in [
+                        ("parameter-literal", format!("f := (a: int) -> any {{ return a {} {} }}", f.op, int_lit(b)), a),
+                        ("literal-parameter", format!("f := (b: int) -> any {{ return {} {} b }}", int_lit(a), f.op), b),
+                        ("parameter-bound-constant", format!("f := (a: int) -> any {{ k := {}; return a {} k }}", int_lit(b), f.op), a),
+                    ] {
+                        acc.evals += 1;
+                        let got = match guard(|| Code::parse(interp, &text)) {
+                            Ok(Ok(code)) => match guard(|| code.exec()) {
+                                Ok(Ok(Variable::Function(g))) => call(&g, vec![arg.into()]),
+                                _ => Ref::Err("DEFINE FAILED"),
+                            },
+                            Ok(Err(e)) if core::is_exec_kind(&e) => Ref::Err(leak(core::error_kind(&e))),
+                            Ok(Err(e)) => Ref::Err(leak(format!("REJECTED {}", core::error_kind(&e)))),
+                            Err(Stop::Panic(p)) => Ref::Err(leak(format!("PANIC {} @{}", p.short_msg(), p.file()))),
+                            Err(Stop::Exhausted) => Ref::Err("EXHAUSTED"),
+                        };
+                        check(form, &got, &expect);
+                    }
+                }
                 if let Some(cf) = &f.compound {
                     let got = call(cf, vec![a.into(), b.into()]);
                     acc.evals += 1;
@@ -437,6 +459,22 @@ pub fn run(tier: &str) -> i32 {
                             e => e.clone(),
                         };
                         forms.push(("compound", call(cf, vec![a.into(), b.into()]), e));
+                    }
+                    // one operand constant, the other passed at run time
+                    let mixed = |text: String, arg: f64| match guard(|| Code::parse(&interp, &text)) {
+                        Ok(Ok(code)) => match guard(|| code.exec()) {
+                            Ok(Ok(Variable::Function(g))) => call(&g, vec![arg.into()]),
+                            _ => Ref::Err("DEFINE FAILED"),
+                        },
+                        Ok(Err(e)) => Ref::Err(leak(format!("REJECTED {}", core::error_kind(&e)))),
+                        Err(Stop::Panic(p)) => Ref::Err(leak(format!("PANIC {} @{}", p.short_msg(), p.file()))),
+                        Err(Stop::Exhausted) => Ref::Err("EXHAUSTED"),
+                    };
+                    if let Some(lb) = float_lit(b) {
+                        forms.push(("parameter-literal", mixed(format!("f := (a: float) -> any {{ return a {op} {lb} }}"), a), expect.clone()));
+                    }
+                    if let Some(la) = float_lit(a) {
+                        forms.push(("literal-parameter", mixed(format!("f := (b: float) -> any {{ return {la} {op} b }}"), b), expect.clone()));
                     }
                     for (form, got, e) in forms {
                         acc.evals += 1;
